@@ -383,13 +383,21 @@ pub fn run(rep: &mut Report) {
                                         std::fs::write(&apath, &built.bytes).unwrap();
                                         let rev: Vec<usize> = seq.iter().rev().copied().collect();
                                         let prior = u.concat(&u.words, &rev);
-                                        for (http, in_place) in [(false, false), (true, false), (false, true)] {
+                                        // (mode 2: --force-create over an existing file that is longer than the source, no verification asked for)
+                                        for (http, mode) in [(false, 0), (true, 0), (false, 1), (false, 2), (true, 2)] {
+                                            let in_place = mode == 1;
                                             let _ = std::fs::remove_file(&out);
                                             let mut extra = vec!["--verify-output".to_string()];
                                             if in_place {
                                                 // over a prior output holding the same chunks in reverse order
                                                 std::fs::write(&out, &prior).unwrap();
                                                 extra = vec!["--seed-output".to_string()];
+                                            }
+                                            if mode == 2 {
+                                                let mut longer = prior.clone();
+                                                longer.extend_from_slice(b"-- the tail of an older, longer file --");
+                                                std::fs::write(&out, &longer).unwrap();
+                                                extra = vec!["--force-create".to_string()];
                                             }
                                             let target = if http {
                                                 lab.server.arm(&built.bytes, Script { faults: vec![], splits: vec![], keep_alive: true });
@@ -403,7 +411,7 @@ pub fn run(rep: &mut Report) {
                                                 Ok(Err(e)) => agg.viol("conforming-archive-rejected", || detail("cli clone", json!(e))),
                                                 Ok(Ok(())) => {
                                                     if std::fs::read(&out).unwrap_or_default() != source {
-                                                        agg.viol("conforming-archive-cloned-wrong", || detail("cli clone", json!({"http": http, "in_place_over_reversed_prior": in_place})));
+                                                        agg.viol("conforming-archive-cloned-wrong", || detail("cli clone", json!({"http": http, "in_place_over_reversed_prior": in_place, "force_create_over_longer_file": mode == 2})));
                                                     }
                                                 }
                                             }
@@ -519,7 +527,7 @@ pub fn run(rep: &mut Report) {
     rep.set("evaluations", json!(rep.agg.get("archives") + rep.agg.get("http_clones") + rep.agg.get("seeded_clones") + rep.agg.get("cli_clones")));
     rep.set("distinct_nontrivial", json!(rep.agg.distinct_count("layouts")));
     rep.set("exhaustive", json!(thorough));
-    rep.set("rule", json!("independent encoder: sources of <=3/4 words (incl. empty source and duplicate chunks) x {current, legacy magic} x slack {0,1,7,100} x all permutations of the stored chunks x gap pattern {none, 1 byte after each, ramp} x unknown fields {none, in every message} x all per-chunk storage assignments {compressed iff smaller, raw, compressed although larger} x hash length {4,5,64} x {packed, unpacked rebuild order}, per chunker/compression universe (quick: a deterministic 1-in-5 thinning of the product that keeps every value of every dimension; thorough: the full product); each archive is opened by the real reader (accessors == encoder inputs), printed by the real info code, cloned through IoReader, every 16th through the real clone_cmd --verify-output on a file and over HTTP, with a seed (recorded chunker parameters in use) and through HttpReader against the logging loopback server (requests == maximal runs); one archive describing a source of 4 100 MiB + 12 345 bytes in three stored chunks (a chunk ends exactly at source offset 2^32; legacy magic, stored order Y T X with gaps), opened, reported and cloned locally and over HTTP into a comparing sink; non-trivial = distinct archive byte strings"));
+    rep.set("rule", json!("independent encoder: sources of <=3/4 words (incl. empty source and duplicate chunks) x {current, legacy magic} x slack {0,1,7,100} x all permutations of the stored chunks x gap pattern {none, 1 byte after each, ramp} x unknown fields {none, in every message} x all per-chunk storage assignments {compressed iff smaller, raw, compressed although larger} x hash length {4,5,64} x {packed, unpacked rebuild order}, per chunker/compression universe (quick: a deterministic 1-in-5 thinning of the product that keeps every value of every dimension; thorough: the full product); each archive is opened by the real reader (accessors == encoder inputs), printed by the real info code, cloned through IoReader, every 16th through the real clone_cmd on a file and over HTTP (--verify-output onto a new file, --seed-output over the chunks in reverse order, --force-create over a longer file), with a seed (recorded chunker parameters in use) and through HttpReader against the logging loopback server (requests == maximal runs); one archive describing a source of 4 100 MiB + 12 345 bytes in three stored chunks (a chunk ends exactly at source offset 2^32; legacy magic, stored order Y T X with gaps), opened, reported and cloned locally and over HTTP into a comparing sink; non-trivial = distinct archive byte strings"));
     rep.assume("the independent encoder defines 'conforming'; it never stores a compressed chunk whose stored size equals its source size");
 }
 
